@@ -1,6 +1,6 @@
 """C14 — build constraints mean the same thing to avo and to the Go toolchain."""
 
-THEOREM_MODULES = ["AvoVerif.Props.C14", "AvoVerif.Props.C14Tables"]
+THEOREM_MODULES = ["AvoVerif.Props.C14", "AvoVerif.Props.C14Tables", "AvoVerif.Props.C14Bounds"]
 
 
 def _nontrivial(req, resp):
@@ -8,6 +8,34 @@ def _nontrivial(req, resp):
     head = req.split(" ", 3)
     tok = head[2] if req.startswith("accept-tags") and len(head) > 2 else (head[1] if len(head) > 1 else "")
     return any(ch in tok for ch in ",+;") or (req.startswith(("parse", "tcline", "ctx")) and len(tok) > 4)
+
+
+def _floors(ctx, tag, n):
+    """Lower bounds on the number of judged cases per stream: silently dropped cases are an obligation failure."""
+    st = ctx.coverage.get("input_distribution", {}).get(tag)
+    if not isinstance(st, dict):
+        ctx.obligation_failures.append((f"{tag}: stats", "no input-distribution statistics were written"))
+        return
+    shapes = st.get("FileShapes") or {}
+    floors = {
+        "Formulas": n, "Valid": n * 6 // 10, "Invalid": n // 20, "InvalidEvaluated": n // 20, "Judged": n * 6 // 10,
+        "WithUnicode": n // 4, "WithNegation": n // 2, "LargeShapeFormulas": n // 40,
+        "LongFormulas": 10 + min(40, n // 600) // 2, "LongOverLimit": 6, "LongUnderLimit": 4, "FormatErrors": 6,
+        "BigFormulas": 13, "TermRequests": 400, "BadUTF8Terms": 5, "ParseRequests": n // 4, "ParseErrors": 10,
+        "TclineRequests": n // 4, "CtxRequests": n // 8, "AvoValidCodepoints": 100000,
+        "ParseJudged": n // 2, "CtxFormulas": n // 40,
+    }
+    for key, lo in floors.items():
+        got = st.get(key, 0)
+        if got < lo:
+            ctx.obligation_failures.append((f"{tag}: sample floor {key}", f"only {got} cases of stream '{key}' (floor {lo})"))
+    for sh in "0123":
+        if shapes.get(sh, 0) < n // 10:
+            ctx.obligation_failures.append((f"{tag}: sample floor file shape {sh}", f"only {shapes.get(sh, 0)} formulas were printed into a file of shape {sh} (floor {n // 10})"))
+    # files that could not be printed / judged by go/build are legitimate only for the listed findings (F8d, F8e)
+    if st.get("PrinterErrors", 0) > 2 * (st.get("FormatErrors", 0) + 4):
+        ctx.obligation_failures.append((f"{tag}: printer errors", f"{st.get('PrinterErrors')} printer errors vs {st.get('FormatErrors')} Format errors"))
+    ctx.coverage.setdefault("sample_floors", {})[tag] = floors
 
 
 def run(ctx):
@@ -31,37 +59,72 @@ def run(ctx):
         ctx.differential("c14", 0, nontrivial=_nontrivial, max_report=big)
         return
     if ctx.tier == "quick":
-        ctx.differential("c14", 8000, nontrivial=_nontrivial, max_report=big)
+        if ctx.differential("c14", 8000, nontrivial=_nontrivial, max_report=big) is not None:
+            _floors(ctx, "c14", 8000)
     else:
         for i in range(3):
-            ctx.differential("c14", 120000, extra=["-seed", str(ctx.seed * 1000 + i)], tag=f"-{i}",
-                             nontrivial=_nontrivial, max_report=big, timeout=7200)
+            if ctx.differential("c14", 120000, extra=["-seed", str(ctx.seed * 1000 + i)], tag=f"-{i}",
+                                nontrivial=_nontrivial, max_report=big, timeout=7200) is not None:
+                _floors(ctx, f"c14-{i}", 120000)
     ctx.coverage["exhaustive"] = False
     ctx.coverage["rule"] = (
-        "generated AND-of-OR-of-AND formulas (0-4 lines x 0-4 options x 0-4 terms over a per-formula pool of <= 6 tags: "
-        "ASCII, digits, dots, underscores, non-ASCII letters/digits, negation; invalid terms '!!x', '', '!', 'a-b', "
-        "spaces, commas, control and non-letter code points in ~15% of formulas) x ALL 2^k assignments of the formula's tags, "
-        "through the real Validate/Evaluate/GoString/Format/ParseConstraint/ParseOption, both printers and "
-        "build.Context.ConstraintExpr; exact comparison with the Lean model, and an acceptor per formula that demands: "
-        "go/build/constraint accepts the header avo printed, its evaluation equals avo's Evaluate on every assignment, "
-        "go/build.Context.MatchFile on the printed stub and assembly files selects the file exactly then, and every "
-        "constraint parses back from its printed form. Plus: avo's one-character validity over ALL code points vs the "
-        "toolchain's (exhaustive), term literals vs constraint.Parse, `// +build` comment lines (well-formed and malformed) "
-        "vs the toolchain model, formulas at the toolchain's complexity limits (100 operators per line, 1000 operands). "
-        "non-trivial = at least two terms/options/lines")
+        "generated AND-of-OR-of-AND formulas (usually 0-4 lines x 0-4 options x 0-4 terms, one in 12 larger: up to 10 lines x 6 "
+        "options x 6 terms or 2 x 2 x 40, over a per-formula pool of <= 6 tags: ASCII, digits, dots, underscores, non-ASCII "
+        "letters/digits, negation; invalid terms '!!x', '', '!', 'a-b', spaces, commas, control and non-letter code points in "
+        "~15% of formulas) x ALL 2^k assignments of the formula's tags, through the real Validate/Evaluate (invalid sets "
+        "too)/GoString/Format/ParseConstraint/ParseOption, both printers and build.Context.ConstraintExpr; exact comparison "
+        "with the Lean model of Validate, GoString, Evaluate, the CLASS of Format's result (error / no line / lines - the "
+        "header TEXT is not compared with the model, it is given to the real go/build/constraint and the decisions per "
+        "assignment are compared, so any semantically equal rendering is accepted) and parse(print); and an acceptor per "
+        "formula (Obs.ok, theorem acceptObs_sound) that demands: Format succeeds, go/build/constraint accepts the header avo "
+        "printed, its evaluation equals avo's Evaluate on every assignment, go/build.Context.MatchFile on the printed stub and "
+        "assembly files selects the file exactly then, and every constraint parses back from its printed form. The printed "
+        "files are real ones: by formula, an empty ir.File, a hand-built file with two #includes and two documented functions "
+        "(one with a pragma), or a file built through build.Context (+Attributes NOSPLIT) and pass.Compile (which adds the "
+        "textflag.h include), constraints entered one by one or as a set. Long lines: in every tier 10 fixed formulas at the "
+        "64 KiB limit of Format's bufio.Scanner (header of 65535 / 65536 bytes, one 70000-byte tag, two-byte letters, many "
+        "short tags, a long tag on a line go/format cannot convert) and ~1 generated formula in 300 (<= 40 per run) grown so "
+        "that the toolchain-computed header length lands on/near the limit (sizes steered with go/build/constraint, never "
+        "with avo's own output). Plus: avo's one-character validity over ALL code points vs the toolchain's (exhaustive), "
+        "term literals vs constraint.Parse (including byte strings that are not UTF-8: must be invalid), "
+        "ParseConstraint/ParseOption on well-formed and malformed text, exact and through an acceptor (accept-parse: the "
+        "parsed constraint means what the toolchain reads from the same text, all assignments of its words), `// +build` "
+        "comment lines (well-formed and malformed) vs the toolchain model, formulas at the toolchain's complexity limits "
+        "(100 operators per line, 1000 operands), build.Context.ConstraintExpr sequences (exact; accept-ctx: a Context "
+        "without errors holds a valid set; that set then goes through the whole formula check). Sample floors "
+        "(coverage.sample_floors) per stream and per file shape. non-trivial = at least two terms/options/lines")
     ctx.assumptions += [
-        "go >= 1.18 syntax file is active (plusbuild=false, gobuild=true): measured by the `syntax` request on every run",
+        "go >= 1.18 syntax file is active (plusbuild=false, gobuild=true; recorded in the input distribution, not judged: "
+        "what Format prints is judged by the toolchain's reading of it on every formula)",
         "the toolchain reads a `//go:build` line back as the expression go/format printed (parseExpr . String = id on the "
         "expressions synthesised from `// +build` lines): not proved, measured on every generated formula by evaluating the "
         "real parse of the real header on all assignments",
         "the file selection of go/build is that of a zero build.Context plus BuildTags (no GOOS/GOARCH/compiler/release/cgo tags)",
-        "tags_equiv needs beyond Validate: <= 101 terms per line (F8c), 2*sum(terms-per-line) <= 1001 (sufficient for the "
-        "parser's 1000-operand limit, F8d); empty options / empty lines are invalid since /repo 0ad3cb8 (F8, F8b fixed)",
+        "tags_equiv needs beyond Validate exactly three size clauses, each at the real boundary (witness theorems on both "
+        "sides): <= 101 terms per line (F8c), <= 1000 parser operands in the synthesised expression (F8d; input-level "
+        "sufficient: 2*sum(terms-per-line) <= 1001, printable_of_bounds), `//go:build` line < 65536 bytes (F8e; input-level "
+        "sufficient: sum over terms of (bytes+10) + 3 < 65536); empty options / empty lines are invalid since /repo 0ad3cb8 "
+        "(F8, F8b fixed)",
+        "the model follows the CURRENT code on Format's error outcome (scanLimit = 65536 in Model/Tags.lean): if /repo is "
+        "repaired (scanner buffer enlarged) the `fmt=` class of the exact `tags` line changes on lines >= 64 KiB and the "
+        "model constant must be updated; the acceptor itself needs no change",
+        "when go/format synthesises a `//go:build` line, the `// +build` lines it regenerates from it are not longer than "
+        "that line (so only the `//go:build` line can reach the scanner limit): not modelled, measured by the exact "
+        "comparison of Format's error outcome at the boundary sizes",
+        "terms are text: byte strings that are not valid UTF-8 are judged only by `never valid` (accept-badutf8); the Lean "
+        "model's strings are sequences of code points",
+        "Evaluate on INVALID sets (an invalid term is false) is outside the property text; it is compared exactly with the "
+        "model as behaviour of the code",
     ]
     ctx.trusted += [
         "Oracle.tagRanges / Oracle.spaceCodes are measured from go/build/constraint.Parse and strings.Fields of the installed "
         "toolchain over every code point on every run",
         "go/build/constraint, go/build.Context.MatchFile, go/format of the installed toolchain as ground truth",
         "modelled-not-verified: go/printer's recognition of `// +build` comments is modelled line-wise (exact for the sources "
-        "avo produces from valid sets; measured by exact comparison of Format's output on every generated formula)",
+        "avo produces from valid sets; measured through the class of Format's result and the toolchain's decisions on every "
+        "generated formula)",
+        "the compiled driver runs linear-time versions of the model's split/fields (csimp theorems split_eq_splitFast, "
+        "fields_eq_fieldsFast, audited)",
+        "the acceptor consults the model only to tell the three listed causes (F8c/F8d/F8e) from an unexpected failure of the "
+        "same shape; every answer other than `ok` is reported",
     ]
